@@ -286,6 +286,22 @@ pub fn seed_recreated() -> Seed {
     p.seed("recreated:a")
 }
 
+/// a deleted and re-created, the new incarnation restarting at position 0 (below the old one's
+/// next position).
+pub fn seed_recreated_from_zero() -> Seed {
+    let mut p = Planner::new();
+    p.push(Op::Create(QA))
+        .push(s3(QA))
+        .push(s3(QA))
+        .push(s3(QA))
+        .push(Op::Delete(QA))
+        .push(Op::Create(QA))
+        .push(s3(QA))
+        .push(Op::Create(QB))
+        .push(s3(QB));
+    p.seed("recreated-from-zero:a")
+}
+
 pub fn seed_future() -> Seed {
     let mut p = Planner::new();
     p.push(Op::Create(QA))
@@ -309,6 +325,7 @@ pub fn structural_seeds() -> Vec<Seed> {
         seed_empty_old(),
         seed_gc_ready(),
         seed_recreated(),
+        seed_recreated_from_zero(),
         seed_future(),
     ]
 }
